@@ -5,6 +5,9 @@ from __future__ import annotations
 
 
 def classify(pid, name, case, msg):
+    if isinstance(case, dict) and case.get("extra"):  # cases of the operation tables in extra_ops.py have their own layout
+        import findings_extra
+        return findings_extra.classify(pid, name, case, msg)
     f = globals().get(f"_classify_{pid.lower()}")
     if f is None:
         import importlib
